@@ -60,6 +60,17 @@ CHECKS = {
         design_ref="DESIGN.md section 8, C08",
         technique="Lean 4 theorem about the decision function + exhaustive correspondence on small tuples + independent Lean cost measure over real outputs",
     ),
+    "C14": dict(
+        category="proof",
+        text=("Lean specification of splitting and rebuilding (Models/Asm.lean) with theorems for every block and every choice of cut "
+              "positions: joinShared_subBlocks (the sub-blocks joined at the shared instruction are the block), sharedOk_subBlocks, "
+              "rebuild_none (rebuilding with nothing replaced is the identity). Tie: the sub-block lists, specification keys and "
+              "source/target stack sizes the real front end reports under the three policies, and the real "
+              "rebuild_optimized_asm_block with no and with each single replacement, are compared with the Lean functions on every "
+              "generated block (exact correspondence; stack sizes against Lean symbolic execution)."),
+        design_ref="DESIGN.md section 8, C14",
+        technique="Lean 4 theorems about the split/join/rebuild specification + exact correspondence of the real splitter and rebuilder with it",
+    ),
 }
 
 NOT_APPLICABLE = [
